@@ -279,6 +279,17 @@ def atomic(F, rep):
                 compile_try = any(p.get("k") == "Try" for p in parents) or peel(s).get("k") == "Try"
             if any(n is o[0] for o in opened) and i_create is None:
                 i_create = i
+    # .. and once the compile has succeeded the file *is* written: a write left out under some condition on what FILE holds already
+    # (an "up to date" test, say) leaves an old program in place with status 0
+    cond = None
+    for n, parents in walk(file_arm["body"]):
+        if n is opened[0][0]:
+            cond = [p for p in parents if p.get("k") in ("If", "Match", "Closure", "Loop", "While")]
+    rep.ob("ATOMIC", "output-always-written", cond == [],
+           "after a successful compile FILE is created and written on every path (no condition around it)" if cond == [] else
+           "FILE is created and written only under a condition (`%s`): on the other path a successful run leaves FILE as it was - "
+           "an old program, or none - and still exits 0" % pp(cond[-1].get("cond") or cond[-1].get("scrut") or cond[-1])[:60],
+           line_of(cond[-1]) if cond else line_of(opened[0][0]))
     # all-or-nothing also when the write itself fails: the bytes must go to a temporary file that replaces FILE in one step
     renames = [c for c in nodes(file_arm["body"], "Call") if callee(c) == "std::fs::rename"]
     rep.ob("ATOMIC", "write-replaces-in-one-step", bool(renames),
